@@ -58,6 +58,10 @@ def try_inner(e):
     return e0, False
 
 
+# set by the caller: `get_any` answers UnexpectedEOF only when no token of the statement has been read (rule C07.j)
+GET_ANY_EOF_SAFE = False
+
+
 class Decoder:
     def __init__(self, F, lex_name="lex", ctor_params=None):
         self.F = F
@@ -68,7 +72,7 @@ class Decoder:
     def ev(self, e, st):
         e, was_try = try_inner(e)
         e = peel_keep_clone(e)
-        if was_try and e.get("k") == "MethodCall" and e["name"] in ("get_any", "peek_any"):
+        if was_try and e.get("k") == "MethodCall" and (e["name"] == "peek_any" or (e["name"] == "get_any" and not (GET_ANY_EOF_SAFE and st.consumed >= 1))):
             r = e["recv"]
             if r.get("k") == "Path" and r.get("res") == self.lex:
                 st.eofq.append(st.consumed)
@@ -241,6 +245,26 @@ class Decoder:
                 else:
                     yield neg, ("unit",)
                 return
+            # `matches!(tok.token_type(), TokenType::A | TokenType::B(_))`: the token ends the statement (newline / comment)
+            mc = peel_keep_clone(cond)
+            if mc.get("k") == "Match" and len(mc["arms"]) == 2:
+                sc = peel_keep_clone(mc["scrut"])
+                if sc.get("k") == "MethodCall" and sc["name"] == "token_type":
+                    tv = self.ev(sc["recv"], st.fork())
+                    vs = {short(v) for kind, v in pat_variants(mc["arms"][0]["pat"]) if kind == "path"}
+                    tb, fb = lit_value(mc["arms"][0]["body"]), lit_value(mc["arms"][1]["body"])
+                    if tv and tv[0] == "tok" and vs and vs <= {"Newline", "Comment"} and tb is True and fb is False:
+                        i = tv[1]
+                        pos = st.fork()
+                        if pos.toks[i] in (None, "$"):
+                            pos.toks[i] = "$"
+                            yield from self.run_expr(e["then"], pos)
+                        neg = st.fork()
+                        if e.get("else") is not None:
+                            yield from self.run_expr(e["else"], neg)
+                        else:
+                            yield neg, ("unit",)
+                        return
             raise Unextractable(f"unsupported if-condition at {e.get('sp')}")
         if k == "Match" and e.get("src") != "TryDesugar":
             sv_state = st.fork()
@@ -318,7 +342,7 @@ def name_tokens(st):
     seq = []
     for i in range(st.consumed):
         k = st.toks[i]
-        if k in ("(", ")"):
+        if k in ("(", ")", "$"):
             names[i] = k
         elif k is None:
             names[i] = "?"
